@@ -149,7 +149,8 @@ func (c civil) gen() string {
 }
 
 // timeVariant returns a near-valid (or BER-only) variant of a valid DER time string.
-func timeVariant(r *rand.Rand, s string, gen bool) string {
+// occ >= 0 selects the variant (occ%22) and the sub-form (occ/22) by index so that every form occurs for every seed.
+func timeVariant(r *rand.Rand, s string, gen bool, occ int) string {
 	body := s[:len(s)-1] // without Z
 	dateLen := 6
 	if gen {
@@ -157,19 +158,24 @@ func timeVariant(r *rand.Rand, s string, gen bool) string {
 	}
 	setField := func(off int, v string) string { return body[:off] + v + body[off+2:] + "Z" }
 	offs := []string{"+0100", "-0100", "+0000", "-0000", "+2359", "-1200", "+1400", "+2400", "+0060", "+2500", "+01", "-05", "+01:00", "+1"}
-	switch r.IntN(22) {
+	variant, sub := r.IntN(22), r.IntN(1<<20)
+	if occ >= 0 {
+		variant, sub = occ%22, occ/22
+	}
+	fracs := []string{".5Z", ".50Z", ".0Z", ",5Z", ".Z", ".123456789Z", ".5", ".5+0100", ".25Z", ".000001Z"}
+	switch variant {
 	case 0:
 		return body[:len(body)-2] + "Z" // no seconds
 	case 1:
-		return body[:len(body)-2] + offs[r.IntN(len(offs))] // no seconds + differential
+		return body[:len(body)-2] + offs[sub%len(offs)] // no seconds + differential
 	case 2, 3:
-		return body + offs[r.IntN(len(offs))]
+		return body + offs[sub%len(offs)]
 	case 4:
 		return body // no Z (local time)
 	case 5:
 		return body + "z"
 	case 6:
-		return body + []string{".5Z", ".50Z", ".0Z", ",5Z", ".Z", ".123456789Z", ".5", ".5+0100"}[r.IntN(8)]
+		return body + fracs[sub%len(fracs)]
 	case 7:
 		return setField(dateLen-4, []string{"00", "13", "19", "99"}[r.IntN(4)]) // month
 	case 8:
@@ -209,7 +215,7 @@ func timeVariant(r *rand.Rand, s string, gen bool) string {
 	case 20:
 		return body[:dateLen] + "240000Z"
 	default:
-		return ""
+		return body + fracs[(sub+5)%len(fracs)]
 	}
 }
 
@@ -289,7 +295,7 @@ func validSpec(r *rand.Rand, kind int) spec {
 }
 
 // typeSpecific returns a near-valid content for the kind (mutation "type-specific").
-func typeSpecific(r *rand.Rand, kind int, s spec) spec {
+func typeSpecific(r *rand.Rand, kind int, s spec, occ int) spec {
 	switch kind {
 	case 0, 1, 12:
 		v := randInt(r)
@@ -381,9 +387,9 @@ func typeSpecific(r *rand.Rand, kind int, s spec) spec {
 		}
 		return spec{s.tag, c}
 	case 5:
-		return spec{s.tag, []byte(timeVariant(r, string(s.content), false))}
+		return spec{s.tag, []byte(timeVariant(r, string(s.content), false, occ))}
 	case 6:
-		return spec{s.tag, []byte(timeVariant(r, string(s.content), true))}
+		return spec{s.tag, []byte(timeVariant(r, string(s.content), true, occ))}
 	case 9, 10, 11:
 		inner := s.content
 		switch r.IntN(8) {
@@ -400,7 +406,7 @@ func typeSpecific(r *rand.Rand, kind int, s spec) spec {
 			inner = append([]byte{t.Tag, 0x81, byte(len(t.Content))}, t.Content...)
 		case 5: // inner near-valid
 			k := map[int]int{9: 0, 10: 7, 11: 2}[kind]
-			inner = typeSpecific(r, k, validSpec(r, k)).encode()
+			inner = typeSpecific(r, k, validSpec(r, k), -1).encode()
 		case 6: // inner truncated
 			if len(inner) > 0 {
 				inner = inner[:len(inner)-1]
@@ -419,7 +425,7 @@ func typeSpecific(r *rand.Rand, kind int, s spec) spec {
 }
 
 // buildInput applies the mutation to a valid spec of the kind.
-func buildInput(r *rand.Rand, kind, mut int, thorough bool) []byte {
+func buildInput(r *rand.Rand, kind, mut, occ int, thorough bool) []byte {
 	s := validSpec(r, kind)
 	n := len(s.content)
 	switch mut {
@@ -470,7 +476,7 @@ func buildInput(r *rand.Rand, kind, mut int, thorough bool) []byte {
 	case 12:
 		return spec{s.tag ^ 0x20, s.content}.encode()
 	case 13:
-		return typeSpecific(r, kind, s).encode()
+		return typeSpecific(r, kind, s, occ).encode()
 	case 14:
 		e := s.encode()
 		e[r.IntN(len(e))] ^= byte(1 << uint(r.IntN(8)))
